@@ -121,6 +121,13 @@ def run(R):
             R.disagree('transform', case, got[:500], o[:500])
         else:
             R.traces += 1
+        # SPEC (C16_once): the callbacks are applied exactly once per parsed-object occurrence reachable through
+        # fields and lists of the input
+        nobj = before.count('(o ')
+        if '(exc' not in got:
+            nlog = len(got[got.rindex(' (') + 2:-2].split()) if not got.endswith('())') else 0
+            if nlog != nobj:
+                R.counterexample('transform', 'callback-count', case, f'{nobj} applications (one per object occurrence)', f'{nlog}: {got[:300]}')
         uses_existing = any(isinstance(c, list) and c[0] == 'child' for c in chain)
         if before != after and not uses_existing:
             R.counterexample('transform', 'input-modified', case, before[:500], after[:500])
